@@ -164,6 +164,20 @@ func emptyPattern(rng *rand.Rand) []int {
 	return p
 }
 
+// emptyPatterns: the shapes every receiver is fed with: random runs, and an empty record in front of EACH
+// data record over a long stream (what OpenSSL-style CBC countermeasures and padding-only TLS 1.3 records look like).
+func emptyPatterns(rng *rand.Rand) [][]int {
+	var each []int
+	for i, k := 0, 48+rng.Intn(16); i < k; i++ {
+		each = append(each, 0, 1+rng.Intn(40))
+	}
+	var pairs []int
+	for i := 0; i < 20; i++ {
+		pairs = append(pairs, 0, 0, 1+rng.Intn(40), 0, 1+rng.Intn(5))
+	}
+	return [][]int{emptyPattern(rng), each, pairs}
+}
+
 func patternTerm(p []int) string {
 	it := make([]string, len(p))
 	for i, x := range p {
@@ -187,40 +201,41 @@ func emptyRecordStreams(c *vh.Ctx) {
 			}
 			seen[kk] = true
 			key := fmt.Sprintf("%04x/%04x", r.ID, v)
-			in := map[string]any{"suite": fmt.Sprintf("0x%04x", r.ID), "version": fmt.Sprintf("0x%04x", v)}
-			s := newSecrets(c.Rng)
-			smc := &memConn{}
-			srv := forge(smc, v, r.ID, s, false)
-			pat := emptyPattern(c.Rng)
-			var want []byte
-			bad := false
-			for _, n := range pat {
-				var err error
-				if n == 0 {
-					err = srv.VerifWriteEmptyRecord(23)
-				} else {
-					d := make([]byte, n)
-					c.Rng.Read(d)
-					want = append(want, d...)
-					_, err = srv.Write(d)
-				}
-				if err != nil {
-					c.Fail("c25-forge/"+key, "forged server cannot write", in, err.Error(), "ok")
-					bad = true
-					break
-				}
+			for _, pat := range emptyPatterns(c.Rng) {
+				emptyStreamOne(c, r, v, key, pat)
 			}
-			if bad {
-				continue
-			}
-			got, err, pan, pv := readAll(v, r.ID, s, smc.w.Bytes())
-			in["pattern"] = pat
-			if pan || !bytes.Equal(got, want) || err != io.EOF {
-				c.Fail("c25-empty-records/"+key, "data interleaved with zero-length application data records (never more than 24 in a row) does not arrive intact",
-					in, fmt.Sprint(len(got), " of ", len(want), " bytes, err=", err, " panic=", pv), "all bytes, then EOF")
-			}
-			c.Case("empty", fmt.Sprintf("(CEmpty %d %d %d %s %d %s)", v, r.Kind, r.MacSize, patternTerm(pat), len(got), vh.Bool(err != io.EOF || pan)),
-				"empty/"+key, true, nil)
 		}
 	}
+}
+
+func emptyStreamOne(c *vh.Ctx, r tls.VerifSuite, v uint16, key string, pat []int) {
+	in := map[string]any{"suite": fmt.Sprintf("0x%04x", r.ID), "version": fmt.Sprintf("0x%04x", v)}
+	s := newSecrets(c.Rng)
+	smc := &memConn{}
+	srv := forge(smc, v, r.ID, s, false)
+	var want []byte
+	for _, n := range pat {
+		var err error
+		if n == 0 {
+			err = srv.VerifWriteEmptyRecord(23)
+		} else {
+			d := make([]byte, n)
+			c.Rng.Read(d)
+			want = append(want, d...)
+			_, err = srv.Write(d)
+		}
+		if err != nil {
+			c.Fail("c25-forge/"+key, "forged server cannot write", in, err.Error(), "ok")
+			return
+		}
+	}
+	// the receiver is a UConn around a fresh forged client: UConn.Read runs
+	got, err, pan, pv := readAll(v, r.ID, s, smc.w.Bytes())
+	in["pattern"] = pat
+	if pan || !bytes.Equal(got, want) || err != io.EOF {
+		c.Fail("c25-empty-records/"+key, "data interleaved with zero-length application data records (never more than 24 in a row) does not arrive intact",
+			in, fmt.Sprint(len(got), " of ", len(want), " bytes, err=", err, " panic=", pv), "all bytes, then EOF")
+	}
+	c.Case("empty", fmt.Sprintf("(CEmpty %d %d %d %s %d %s)", v, r.Kind, r.MacSize, patternTerm(pat), len(got), vh.Bool(err != io.EOF || pan)),
+		fmt.Sprintf("empty/%s/%d-%d", key, len(pat), pat[0]), true, nil)
 }
